@@ -53,7 +53,9 @@ def structures(draw, max_atoms=300, full_rank_only=False, allow_zero_periodic=Tr
             d["iso_seed"] = draw(seeds)
         if fam == "crystallite":
             d["radius_pct"] = draw(gc.ffloat(40.0, 100.0))
-            d["vacuum"] = draw(gc.ffloat(3.0, 8.0))
+            # vacuum per side: from "the crystallite nearly touches its periodic copies" (gap 2 x 1.2 A) to clearly isolated;
+            # explicit magnitudes + jitter (bounded Hypothesis floats cluster at the lower bound)
+            d["vacuum"] = draw(st.sampled_from([4.0, 1.2, 1.5, 1.8, 2.5, 6.0, 8.0])) + draw(gc.ffloat(0.0, 0.3))
         if fam == "slab":
             d["layers_cut"] = draw(st.integers(1, 2))
             d["vacuum"] = draw(gc.ffloat(4.0, 10.0))
